@@ -220,10 +220,21 @@ func VerifC19_StatusGate() {
 		respEtag = rt.String("resp-etag")
 		hdr["Etag"] = []string{respEtag}
 	}
-	bodyKind := rt.Choice("body", 5)
+	bodyKind := rt.Choice("body", 6)
 	body := &verifBody{}
 	decodable, strictErrs := true, false
 	switch bodyKind {
+	case 5:
+		// "any byte sequence as body": junk of a length around the powers of two
+		// at which code that quotes or abbreviates bodies tends to cut
+		n := []int{0, 1, 255, 256, 511, 512, 513, 1023, 1024, 1025}[rt.Choice("junk-length", 10)]
+		junk := make([]byte, n)
+		for i := range junk {
+			junk[i] = 'x'
+		}
+		body.data = junk
+		decodable = false
+		rt.Cover("junk-body-of-boundary-length")
 	case 0:
 		body.data = []byte(verifBodyFresh)
 	case 1:
